@@ -8,10 +8,13 @@ package zz_verifrt
 import (
 	"encoding/json"
 	"fmt"
+	"io"
 	"os"
 	"sync"
 	"time"
 )
+
+var errEOF = io.EOF
 
 func timeoutChan() <-chan time.Time { return time.After(60 * time.Second) }
 
@@ -309,3 +312,38 @@ func IteU64(c bool, a, b uint64) uint64 {
 	}
 	return b
 }
+
+// ---------- file-system trace (engine only; natively the trace is empty) ----------
+
+func FsReset()            {}
+func FsLen() int          { return 0 }
+func FsOp(i int) string   { return "" }
+func FsPath(i int) string { return "" }
+func FsPath2(i int) string { return "" }
+func FsOK(i int) bool     { return false }
+
+// WalkEntry registers a candidate directory entry for the engine's
+// filepath.Walk stub (natively a no-op: the real file system is walked).
+func WalkEntry(path string, isDir bool) {}
+
+// FsFaults bounds how many file-system calls may fail on a path
+// (-1 = any number, 0 = none). Engine only.
+func FsFaults(n int) {}
+
+// ZipEntry registers an archive entry for the engine's zip.OpenReader stub.
+func ZipEntry(name string) { zipNames = append(zipNames, name) }
+
+// NopReader is an empty io.ReadCloser (contents of stubbed archive entries).
+type NopReader struct{}
+
+func (*NopReader) Read(p []byte) (int, error) { return 0, errEOF }
+func (*NopReader) Close() error               { return nil }
+
+// FsFaultOps restricts which file-system operations may fail (comma list of
+// op names as they appear in the trace). Engine only.
+func FsFaultOps(ops string) {}
+
+// FsStatDirs: successful os.Stat calls report an existing directory with mode
+// 0755 instead of an arbitrary file (engine only; cuts forks that do not
+// matter for the property at hand).
+func FsStatDirs(on bool) {}
